@@ -66,13 +66,23 @@ def cmap_confined(name: str, exists_in_env: bool, exists_in_pkg: bool) -> bool:
     return _cmap_confined(name, exists_in_env, exists_in_pkg, ENVDIR)
 
 
-def _cmap_confined(name, exists_in_env, exists_in_pkg, ENVDIR):          # not a contract function: the directory is fixed by the two wrappers above
+def cmap_confined_unset(name: str, exists_in_env: bool, exists_in_pkg: bool) -> bool:
+    """
+    pre: len(name) <= 5
+    post: _
+    """
+    return _cmap_confined(name, exists_in_env, exists_in_pkg, None)
+
+
+def _cmap_confined(name, exists_in_env, exists_in_pkg, ENVDIR):          # not a contract function: the directory is fixed by the wrappers above
+    """ENVDIR None: CMAP_PATH is not set - the directories searched are then whatever the library searches for the harmless name 'x', and they must be absolute
+    (a relative one would be the process's working directory)"""
     probed: List[str] = []
     opened: List[str] = []
 
     def fake_exists(p):
         probed.append(p)
-        return exists_in_env if p.startswith(ENVDIR) else exists_in_pkg
+        return exists_in_pkg if p.startswith(CMAPDIR) else exists_in_env
 
     class FakeGz:
         def __init__(self, p):
@@ -85,10 +95,20 @@ def _cmap_confined(name, exists_in_env, exists_in_pkg, ENVDIR):          # not a
             pass
     real_os, real_gzip = cmapdb.os, cmapdb.gzip
     cmapdb.os = types.SimpleNamespace(
-        environ={"CMAP_PATH": ENVDIR},
+        environ={"CMAP_PATH": ENVDIR} if ENVDIR is not None else {},
         path=PathStub(fake_exists), sep="/", altsep=None, pardir="..", curdir=".")
     cmapdb.gzip = types.SimpleNamespace(open=FakeGz)
+    allowed = [ENVDIR, CMAPDIR]
     try:
+        if ENVDIR is None:
+            try:
+                CMapDB._load_data("x")
+            except (CMapDB.CMapNotFound, OSError):
+                pass
+            allowed = [posixpath.dirname(p) for p in probed + opened]
+            if not allowed or not all(posixpath.isabs(d) for d in allowed):
+                return False                  # a relative search directory: the working directory of the process
+            del probed[:], opened[:]
         try:
             CMapDB._load_data(name)
         except CMapDB.CMapNotFound:
@@ -98,7 +118,7 @@ def _cmap_confined(name, exists_in_env, exists_in_pkg, ENVDIR):          # not a
     finally:
         cmapdb.os, cmapdb.gzip = real_os, real_gzip
     for p in probed + opened:
-        if not (_inside(p, ENVDIR) or _inside(p, CMAPDIR)):
+        if not any(_inside(p, d) for d in allowed):
             return False
     return True
 
